@@ -504,6 +504,73 @@ def process(run, cases):
                       theorem="Model.Defrag.defrag vs TdmsWriter.defragment", no_input=True)
 
 
+
+# ---------------------------------------------------------------------------
+# Proofs/DefragFull.v retype_prop (the round trip of a property value through Python:
+# TdmsFile.properties -> _to_tdms_value) against the real code
+
+RETYPE_IMPORTS = IMPORTS + "From NpTdms Require Import Proofs.DefragFull.\n"
+
+
+def retype_pool():
+    """(TDMS type, canonical little-endian value bytes): every readable property type, boundary values"""
+    pool = list(PROP_POOL)
+    for ty, fmt, bits, signed in [(1, "<b", 8, True), (2, "<h", 16, True), (3, "<l", 32, True), (4, "<q", 64, True),
+                                  (5, "<B", 8, False), (6, "<H", 16, False), (7, "<L", 32, False),
+                                  (8, "<Q", 64, False)]:
+        lo, hi = (-2 ** (bits - 1), 2 ** (bits - 1) - 1) if signed else (0, 2 ** bits - 1)
+        for v in sorted(set([lo, hi, 0, 1, -1, 127, 128, 255, 256, 2 ** 31 - 1, 2 ** 31, -2 ** 31, -2 ** 31 - 1,
+                             2 ** 32, 2 ** 63 - 1, 2 ** 63, 2 ** 63 + 1])):
+            if lo <= v <= hi:
+                pool.append((ty, struct.pack(fmt, v)))
+    for ty in (9, 0x19):
+        for x in (0.0, -0.0, 1.25, -3.5, 3.4028234663852886e38, 1e-45, float("inf"), float("-inf")):
+            pool.append((ty, struct.pack("<f", x)))
+    for ty in (10, 0x1A):
+        for x in (0.0, -0.0, 2.5, 1e308, 5e-324, float("inf"), float("-inf")):
+            pool.append((ty, struct.pack("<d", x)))
+        pool.append((ty, bytes.fromhex("010000000000f87f")))      # a NaN with a payload
+    for b in (0, 1, 2, 0x7f, 0x80, 0xff):
+        pool.append((0x21, bytes([b])))
+    return pool
+
+
+def retype_tie(run):
+    from nptdms import TdmsWriter
+    cases, meta = [], []
+    for k, (ty, le_value) in enumerate(retype_pool()):
+        for e in ("<", ">"):
+            name = PROP_NAMES[k % len(PROP_NAMES)]
+            src = enc_seg([enc_obj("/", None, [(name, ty, le_value)], e)], b"", 2 | 4 | (64 if e == ">" else 0), e, 4713)
+            out = io.BytesIO()
+            try:
+                TdmsWriter.defragment(io.BytesIO(src), out, version=4712)
+                segs = W.pystrict_lenient(out.getvalue(), [])
+                (pn, pt, pv), = segs[0]["entries"][0]["props"]
+            except Exception as ex:
+                run.violation("retype-raises", "defragment of a one-property source raised %r (type 0x%x, value %s)"
+                              % (ex, ty, le_value.hex()), {"hex": src.hex(), "shapes": ["one_property"],
+                                                           "built_by": "encoder", "version": 4712, "index": "off",
+                                                           "dest": "stream", "source_as": "stream"},
+                              actual=repr(ex))
+                continue
+            run.count("retype_0x%x_to_0x%x" % (ty, pt))
+            cases.append("(mkProp %s %d %s, (%s, %d, %s))" % (W.c_str(name), ty, W.c_bytes(le_value),
+                                                             W.c_str(pn), pt, W.c_bytes(pv)))
+            meta.append((ty, le_value.hex(), e, pt, pv.hex()))
+    bad, errors = H.run_sharded(run.pid, RETYPE_IMPORTS, "prop * (bytes * Z * bytes)", "check_retype", cases,
+                                shard=200, tag="retype")
+    run.corr_errors(errors)
+    run.cov["traces_validated_against_impl"] += len(cases) - len(bad)
+    run.cov["evaluations"] += len(cases)
+    for i in bad[:3]:
+        ty, hv, e, pt, pv = meta[i]
+        run.violation("corr-retype", "Proofs/DefragFull.v retype_prop and the real code disagree: property type 0x%x "
+                      "value %s (source byte order %s) was written as type 0x%x value %s" % (ty, hv, e, pt, pv),
+                      {"type": ty, "value": hv, "endian": e}, kind="correspondence-broken",
+                      theorem="DefragFull.retype_prop vs _to_tdms_value", no_input=True)
+
+
 def make_cases(run, rng, n):
     work = H.workdir(run.pid)
     cases = []
@@ -531,6 +598,7 @@ def main():
     step = 1500
     for k in range(0, len(cases), step):
         process(run, cases[k:k + step])
+    retype_tie(run)
     run.cov["rule"] = ("generated non-DAQmx source files: 70% from an independent encoder (1-6 segments; big-endian, "
                        "interleaved, multi-chunk, metadata-less and matches-previous segments; untyped, property-only, "
                        "empty string / timestamp / numeric channels; strings, raw timestamps, all numeric types incl. "
@@ -540,7 +608,10 @@ def main():
     run.assumptions = ["the reader's view of the source is taken as the source content (reader correctness: C01-C03)",
                        "property TDMS types are not part of the comparison (the reader API does not expose them; "
                        "defragment re-types ints by magnitude and floats as double); values and raw timestamps are",
-                       "DAQmx sources are outside the property"]
+                       "DAQmx sources are outside the property",
+                       "retype_tie: one-property sources, every readable property type with boundary values, both "
+                       "byte orders; single-precision NaN properties are not in the pool (the reader model keeps a "
+                       "signalling NaN's payload unquieted, CPython quiets it)"]
     run.finish()
 
 
